@@ -562,9 +562,17 @@ type Lemma struct {
 	Vars    []QVar
 	Body    Expr
 	Assumed bool
+	ByLean  bool // proved by the installed Lean (omega) instead of SMT
 	Definition bool // definitional axiom of a spec function introduced with 'define' (conservative, not an assumption)
 	Src     string
 	Props   []string
+}
+
+// BoundedCheck is a bounded stand-in (a Go test injected with -overlay) for contracts that cannot be verified.
+type BoundedCheck struct {
+	Props []string
+	Test  string
+	Desc  string
 }
 
 type UFunc struct {
@@ -585,6 +593,7 @@ type SpecFile struct {
 	Lemmas    []*Lemma
 	Ghosts    []*GhostField
 	UFuncs    map[string]*UFunc
+	Bounded   []*BoundedCheck
 }
 
 func NewSpecFile(pkg string) *SpecFile {
@@ -595,7 +604,7 @@ var clauseKeywords = map[string]bool{
 	"func": true, "extern": true, "requires": true, "ensures": true, "modifies": true, "loop": true,
 	"invariant": true, "decreases": true, "pred": true, "props": true, "arith": true, "pure": true,
 	"trusted": true, "panics_if": true, "opt": true, "ghost": true, "lemma": true, "nosafety": true,
-	"results": true, "assume": true, "end": true, "uses": true, "hint": true, "apply": true, "ufunc": true, "fresh": true, "define": true,
+	"results": true, "assume": true, "end": true, "uses": true, "hint": true, "apply": true, "ufunc": true, "fresh": true, "define": true, "bounded": true,
 }
 
 // ParseSpecText parses the //@ lines of one file into sf.
@@ -742,6 +751,26 @@ func (sf *SpecFile) ParseSpecText(file, text string) error {
 				}
 			}
 			sf.UFuncs[uf.Name] = uf
+		case "bounded":
+			// bounded C14 C05 TestName : description
+			desc := ""
+			rest := rc.rest
+			if k := strings.Index(rest, ":"); k >= 0 {
+				desc = strings.TrimSpace(rest[k+1:])
+				rest = rest[:k]
+			}
+			bc := &BoundedCheck{Desc: desc}
+			for _, f := range strings.Fields(rest) {
+				if len(f) >= 3 && f[0] == 'C' && f[1] >= '0' && f[1] <= '9' {
+					bc.Props = append(bc.Props, f)
+				} else {
+					bc.Test = f
+				}
+			}
+			if bc.Test == "" {
+				return fmt.Errorf("%s:%d: bounded needs a test name", file, rc.line)
+			}
+			sf.Bounded = append(sf.Bounded, bc)
 		case "define":
 			// define name(a T, b U) R := body   -- an opaque spec function; its definition is available to a
 			// function's proof only on request (uses name)
@@ -789,6 +818,8 @@ func (sf *SpecFile) ParseSpecText(file, text string) error {
 			for _, h := range head[1:] {
 				if h == "assumed" {
 					lm.Assumed = true
+				} else if h == "lean" {
+					lm.ByLean = true
 				} else if strings.HasPrefix(h, "C") {
 					lm.Props = append(lm.Props, h)
 				}
